@@ -314,6 +314,7 @@ pub enum PickSource {
 pub struct Sched {
     pub gate: Arc<GateSched>,
     pub policy: Cell<Policy>,
+    step_limit_hit: Cell<bool>,
     src: RefCell<PickSource>,
 }
 
@@ -351,6 +352,7 @@ impl Sched {
                 }),
             }),
             policy: Cell::new(policy),
+            step_limit_hit: Cell::new(false),
             src: RefCell::new(PickSource::Rng(ChaCha8Rng::seed_from_u64(seed ^ 0x5ced))),
         }
     }
@@ -376,6 +378,14 @@ impl Sched {
         i.ready.len() + i.threads.values().filter(|t| t.state == TState::Ready).count()
     }
     /// Ids of the ready tasks (debugging aid).
+    /// A director ran into its step budget during this run (the run is cut short: no verdict on
+    /// whatever was still in progress).
+    pub fn note_step_limit(&self) {
+        self.step_limit_hit.set(true);
+    }
+    pub fn step_limit_hit(&self) -> bool {
+        self.step_limit_hit.get()
+    }
     pub fn ready_ids(&self) -> Vec<u64> {
         self.gate.lock().ready.iter().map(|(id, _)| *id).collect()
     }
